@@ -65,3 +65,11 @@ Example C08_witness :
    map (fun k => (k_id k, k_ifl k)) (s_clients s))
   = ([[(1, 3%nat, 0%nat, [11;12;10])]], [(7, 0%Z); (8, 0%Z)]).
 Proof. vm_compute. reflexivity. Qed.
+
+(* The model is tied to the CURRENT source: the order-of-effects facts about nsqd's core
+   functions that the model assumes (proofs/CoreSrcDefs.v) hold of the statement skeletons
+   regenerated from /repo on this run (gen/CoreShape.v). *)
+From NSQV Require proofs.CoreSrcDefs proofs.CoreSrcC08.
+Theorem C08_source_shape : CoreSrcDefs.src_facts_C08.
+Proof. exact CoreSrcC08.src_C08. Qed.
+Print Assumptions C08_source_shape.
